@@ -1,3 +1,4 @@
+import Cutadapt.Generated.Tolerance
 import Cutadapt.Proofs.KmerOverlap
 /-! # C07 — the k-mer prefilter never changes which adapter match is found
 
@@ -289,5 +290,17 @@ example : matchToFiltered
 /-- which reads bypass the finder: for an `anywhere` adapter those shorter than `|adapter| + ⌊rate·|adapter|⌋`; none for a 3' adapter -/
 example : shortReadPasses w2 [84, 84, 71] = true ∧ shortReadPasses w2 [84, 84, 71, 84] = false ∧
     shortReadPasses (mkA .back [84, 84, 71, 84] (· / 5) 1 false) [71] = false := by decide +kernel
+
+/-! ## Tolerance over the full adapter for absolute error counts (regenerated from the working tree on every run) -/
+
+/-- `-e k` on an adapter of `n` informative bases is stored as the double `k/n`; over the whole adapter the tolerance is `floor(fl(k/n) · n)`
+    (`thrOfRate`), which is `k - 1` for a few pairs such as (1, 49) -/
+def fullTolerance (k n : Nat) : Nat := Cutadapt.Adapters.thrOfRate (Float.ofNat k / Float.ofNat n) n
+
+/-- **Behind the k-mer prefilter the real program accepts the same number of substitutions as the aligner alone** (`floor(fl(k/n) · n)`, also at the pairs where that
+    is `k - 1`): the prefilter's own error budget and the aligner's agree on the working tree -/
+theorem generated_prefilter_tolerance :
+    ∀ row ∈ Cutadapt.Generated.toleranceRows, row.2.2.2.2 = fullTolerance row.1 row.2.1 ∧ row.2.2.2.2 = row.2.2.1 := by
+  decide +kernel
 
 end Cutadapt.C07
